@@ -31,7 +31,10 @@ ConsLeaves == <<
   L("int-gt-lt",   TInt("int64", Gt(0), Lt(300)), TRUE),
   L("int32-range", TInt("int32", Ge(0), Le(2)), TRUE),
   L("num-ge",      TNum("float64", Ge(0), NoB), TRUE),
-  L("str-range",   TStr(1, 2), TRUE)
+  L("str-range",   TStr(1, 2), TRUE),
+  \* half-open ranges, one exclusive bound only, in both orientations; 2 sits ON the upper bound
+  L("num-ge-lt",   TNum("float64", Ge(0), Lt(2)), TRUE),
+  L("int-gt-le",   TInt("int64", Gt(0), Le(2)), TRUE)
 >>
 NDeep == 6     \* the first NDeep constraint leaves are also placed at the two-level positions
 PlainLeaves == <<
@@ -89,7 +92,15 @@ DeepPos == <<
   Pos("map>nullable", "req", <<"nullable", "map">>),      Pos("array>nullable", "req", <<"nullable", "arr">>),
   Pos("alias", "req", <<"alias">>),                       Pos("optional-alias", "opt", <<"alias">>),
   Pos("array>alias", "req", <<"alias", "arr">>),          Pos("named-scalar", "req", <<"refscalar">>),
-  Pos("optional-named-scalar", "opt", <<"refscalar">>),   Pos("array>ref>optional-named-scalar", "req", <<"refscalar", "refopt", "arr">>)
+  Pos("optional-named-scalar", "opt", <<"refscalar">>),   Pos("array>ref>optional-named-scalar", "req", <<"refscalar", "refopt", "arr">>),
+  \* a named scalar behind a CHAIN of alias objects (two and three hops), as field, optional field, array item
+  Pos("alias>named-scalar", "req", <<"refscalar", "aliasref">>),  Pos("optional-alias>named-scalar", "opt", <<"refscalar", "aliasref">>),
+  Pos("alias>alias>named-scalar", "req", <<"refscalar", "aliasref", "aliasref">>),
+  Pos("array>alias>named-scalar", "req", <<"refscalar", "aliasref", "arr">>),
+  Pos("alias>alias>ref", "opt", <<"alias", "aliasref">>),
+  \* nested collections whose INNERMOST items are nullable scalars
+  Pos("array>array>nullable", "req", <<"nullable", "arr", "arr">>), Pos("map>array>nullable", "req", <<"nullable", "arr", "map">>),
+  Pos("array>map>nullable", "req", <<"nullable", "map", "arr">>),  Pos("optional>array>array>array>nullable", "opt", <<"nullable", "arr", "arr", "arr">>)
 >>
 
 WT(t, defs) == [t |-> t, defs |-> defs]
@@ -105,6 +116,7 @@ Wrap(w, x, l) ==
     [] w = "refarr"   -> WT(TRef("L" \o s), <<Def("L" \o s, TArr(x))>>)
     [] w = "refmap"   -> WT(TRef("M" \o s), <<Def("M" \o s, TMap(x))>>)
     [] w = "alias"    -> WT(TRef("Al" \o s), <<Def("Al" \o s, TRef("C" \o s)), Def("C" \o s, TStruct(<<F("c", x), FOpt("o", TStr(-1, -1))>>))>>)
+    [] w = "aliasref" -> WT(TRef("Q" \o s), <<Def("Q" \o s, x)>>)          \* an alias object in front of a reference (x must be a ref)
     [] w = "refscalar" -> WT(TRef("S" \o s), <<Def("S" \o s, x)>>)
     [] w = "rec"      -> WT(TRef("N" \o s), <<Def("N" \o s, TStruct(<<F("c", x), FOpt("next", TRef("N" \o s))>>))>>)
     [] w = "union"    -> WT(TDUnion("kind", <<"A" \o s, "B" \o s>>),
@@ -170,7 +182,9 @@ FixedList == <<
       FOpt("moe", TMap(TNullable(TRef("Level")))), F("aos", TArr(TNullable(TStr(-1, -1)))),
       F("anchor", TRef("Anchor")), FOpt("fallback", TRef("Anchor")), F("guides", TArr(TRef("Anchor"))),
       F("owner", TRef("Uid")), FOpt("datasource", TRef("Uid")), FOpt("weight", TRef("Weight")),
-      F("rows", TArr(TRef("Row")))>>)),
+      F("rows", TArr(TRef("Row"))),
+      FOpt("items", TArr(TAny)), FOpt("bag", TMap(TAny)), FOptNull("nitems", TArr(TAny)), F("grid", TArr(TArr(TNullable(TNum("float64", NoB, NoB))))),
+      FOpt("lvls", TMap(TArr(TNullable(TRef("Level")))))>>)),
     Def("Level", TEnum(<<"a", "b">>)),
     Def("Anchor", TRef("Position")),
     Def("Position", TStruct(<<F("x", TInt("int64", NoB, NoB)), FOpt("unit", TStr(-1, -1))>>)),
@@ -188,23 +202,82 @@ FixedList == <<
       FNull("first", TUnion(<<TStr(-1, -1), TBool>>)), FNull("second", TUnion(<<TStr(-1, -1), TBool>>)),
       FOptNull("third", TUnion(<<TStr(-1, -1), TBool>>)),
       F("items", TArr(TNullable(TUnion(<<TStr(-1, -1), TBool>>)))), F("m", TMap(TNullable(TUnion(<<TStr(-1, -1), TBool>>))))>>))>>, FALSE),
+  \* the SAME union typing positions of different nullability, in both orders (optional first / required first): a null is a
+  \* fault exactly at the required non-nullable uses (C08), a valid value at the nullable ones (C01)
+  Fixed("reused-union-orders", <<
+    Def("Root", TStruct(<<
+      FOpt("a", TUnion(<<TStr(-1, -1), TBool>>)), F("b", TUnion(<<TStr(-1, -1), TBool>>)), FNull("c", TUnion(<<TStr(-1, -1), TBool>>)),
+      F("d", TUnion(<<TStr(-1, -1), TBool>>)), FOptNull("e", TUnion(<<TStr(-1, -1), TBool>>)), F("f", TUnion(<<TStr(-1, -1), TBool>>)),
+      F("g", TArr(TUnion(<<TStr(-1, -1), TBool>>)))>>))>>, FALSE),
+  Fixed("reused-union-orders-reversed", <<
+    Def("Root", TStruct(<<
+      F("a", TUnion(<<TStr(-1, -1), TBool>>)), FOpt("b", TUnion(<<TStr(-1, -1), TBool>>)), F("c", TUnion(<<TStr(-1, -1), TBool>>)),
+      FNull("d", TUnion(<<TStr(-1, -1), TBool>>)), F("e", TUnion(<<TStr(-1, -1), TBool>>))>>))>>, FALSE),
+  \* OPTIONAL fields with defaults (non-zero and zero): a document giving them the zero value of their type must round-trip
+  Fixed("optional-defaults", <<
+    Def("Root", TStruct(<<
+      FOptDef("s", TStr(-1, -1), JStr("ab")), FOptDef("b", TBool, JBool(TRUE)), FOptDef("i", TInt("int64", NoB, NoB), JInt(1)),
+      FOptDef("n", TNum("float64", NoB, NoB), JNum(15)), FOptDef("e", TEnum(<<"a", "b">>), JStr("b")),
+      FOptDef("z", TInt("int64", NoB, NoB), JInt(0)), FOptDef("f", TBool, JBool(FALSE)), FOptDef("a", TArr(TStr(-1, -1)), JArr(<<>>)),
+      F("plain", TStr(-1, -1))>>))>>, FALSE),
+  \* unions of structs carrying TWO constant fields, one shared and same-valued, one discriminating, in both declaration
+  \* orders and both alphabetical orders (the shared one is called `version` - after `kind` - or `aversion` - before it)
+  Fixed("union-two-constants", <<
+    Def("Root", TStruct(<<
+      F("p", TDUnion("kind", <<"A1", "B1">>)), F("q", TDUnion("kind", <<"A2", "B2">>)),
+      F("r", TDUnion("kind", <<"A3", "B3">>)), F("s", TArr(TDUnion("kind", <<"A4", "B4">>)))>>)),
+    Def("A1", TStruct(<<F("version", TConst(JStr("v1"))), F("kind", TConst(JStr("a"))), F("x", TInt("int64", NoB, NoB))>>)),
+    Def("B1", TStruct(<<F("version", TConst(JStr("v1"))), F("kind", TConst(JStr("b"))), F("y", TStr(-1, -1))>>)),
+    Def("A2", TStruct(<<F("kind", TConst(JStr("a"))), F("version", TConst(JStr("v1"))), F("x", TInt("int64", NoB, NoB))>>)),
+    Def("B2", TStruct(<<F("kind", TConst(JStr("b"))), F("version", TConst(JStr("v1"))), F("y", TStr(-1, -1))>>)),
+    Def("A3", TStruct(<<F("aversion", TConst(JStr("v1"))), F("kind", TConst(JStr("a"))), F("x", TInt("int64", NoB, NoB))>>)),
+    Def("B3", TStruct(<<F("aversion", TConst(JStr("v1"))), F("kind", TConst(JStr("b"))), F("y", TStr(-1, -1))>>)),
+    Def("A4", TStruct(<<F("kind", TConst(JStr("a"))), F("aversion", TConst(JStr("v1"))), F("x", TInt("int64", NoB, NoB))>>)),
+    Def("B4", TStruct(<<F("kind", TConst(JStr("b"))), F("aversion", TConst(JStr("v1"))), F("y", TStr(-1, -1))>>))>>, FALSE),
+  \* the SAME referenced struct typing positions of different nullability, in both orders
+  Fixed("reused-ref-orders", <<
+    Def("Root", TStruct(<<
+      FOpt("a", TRef("Child")), F("b", TRef("Child")), FNull("c", TRef("Child")), F("d", TRef("Child")),
+      F("e", TArr(TNullable(TRef("Child")))), F("f", TArr(TRef("Child"))), FOptNull("g", TRef("Child"))>>)),
+    Child>>, TRUE),
+  \* half-open numeric ranges in both orientations, integer and float, required and optional: 0 and 2 sit ON the bounds
+  Fixed("half-open-ranges", <<
+    Def("Root", TStruct(<<
+      F("a", TNum("float64", Ge(0), Lt(2))), F("b", TNum("float64", Gt(0), Le(2))),
+      F("c", TInt("int64", Ge(0), Lt(2))), F("d", TInt("int64", Gt(0), Le(2))),
+      FOpt("e", TNum("float64", Ge(0), Lt(2))), FOpt("f", TArr(TInt("int64", Gt(0), Le(2))))>>))>>, TRUE),
   \* declared properties that differ only by letter case, one required and one optional (C01)
   Fixed("case-twins", <<
     Def("Root", TStruct(<<
-      F("userID", TStr(1, -1)), FOpt("userId", TStr(1, -1)), FOpt("name", TStr(-1, -1))>>))>>, TRUE),
+      F("userID", TStr(1, -1)), FOpt("userId", TStr(1, -1)), FOpt("name", TStr(-1, -1)),
+      FOpt("p", TRef("ItemID")), FOpt("q", TRef("ItemId"))>>)),
+    Def("ItemID", TStruct(<<F("n", TInt("int64", Ge(0), NoB))>>)),
+    Def("ItemId", TStruct(<<F("n", TStr(1, -1)), FOpt("o", TBool)>>))>>, TRUE),
   \* TWO packages (definitions named "x.Name" live in a second input file / Go package): named collections with the SAME
   \* bare name in both, the foreign unconstrained one first in field order, plus a foreign struct
   Fixed("two-packages", <<
     Def("Root", TStruct(<<
       F("a", TRef("x.Coll")), F("b", TRef("Coll")), F("c", TRef("x.List")), F("d", TRef("List")),
-      FOpt("e", TRef("x.Child")), FOpt("f", TArr(TRef("x.Child")))>>)),
+      FOpt("e", TRef("x.Child")), FOpt("f", TArr(TRef("x.Child"))), F("g", TRef("x.Tags")), F("h", TRef("Tags")),
+      FOpt("i", TRef("x.Dict")), FOpt("j", TRef("Dict")), FOpt("k", TRef("x.Unit")), FOpt("l", TRef("Unit")),
+      FOpt("m", TRef("x.Item")), FOpt("n", TRef("Item"))>>)),
+    Def("Unit", TStr(1, -1)), Def("x.Unit", TStr(-1, -1)),
+    Def("Item", TStruct(<<F("n", TInt("int64", Ge(0), NoB)), FOpt("o", TStr(-1, -1))>>)), Def("x.Item", TStruct(<<F("n", TInt("int64", NoB, NoB))>>)),
+    Def("Tags", TArr(TNullable(TStr(-1, -1)))), Def("x.Tags", TArr(TStr(-1, -1))),
+    Def("Dict", TMap(TNullable(TInt("int64", NoB, NoB)))), Def("x.Dict", TMap(TInt("int64", NoB, NoB))),
     Def("Coll", TMap(TStr(1, -1))), Def("List", TArr(TInt("int64", Ge(0), NoB))),
     Def("x.Coll", TMap(TStr(-1, -1))), Def("x.List", TArr(TInt("int64", NoB, NoB))),
     Def("x.Child", TStruct(<<F("cid", TInt("int64", Ge(1), NoB)), FOpt("tags", TRef("x.Coll"))>>))>>, TRUE),
   \* control: the constrained own collection first
   Fixed("two-packages-reversed", <<
     Def("Root", TStruct(<<
-      F("a", TRef("Coll")), F("b", TRef("x.Coll")), F("c", TRef("List")), F("d", TRef("x.List"))>>)),
+      F("a", TRef("Coll")), F("b", TRef("x.Coll")), F("c", TRef("List")), F("d", TRef("x.List")),
+      F("g", TRef("Tags")), F("h", TRef("x.Tags")), FOpt("i", TRef("Dict")), FOpt("j", TRef("x.Dict")),
+      FOpt("k", TRef("Unit")), FOpt("l", TRef("x.Unit")), FOpt("m", TRef("Item")), FOpt("n", TRef("x.Item"))>>)),
+    Def("Unit", TStr(1, -1)), Def("x.Unit", TStr(-1, -1)),
+    Def("Item", TStruct(<<F("n", TInt("int64", Ge(0), NoB)), FOpt("o", TStr(-1, -1))>>)), Def("x.Item", TStruct(<<F("n", TInt("int64", NoB, NoB))>>)),
+    Def("Tags", TArr(TNullable(TStr(-1, -1)))), Def("x.Tags", TArr(TStr(-1, -1))),
+    Def("Dict", TMap(TNullable(TInt("int64", NoB, NoB)))), Def("x.Dict", TMap(TInt("int64", NoB, NoB))),
     Def("Coll", TMap(TStr(1, -1))), Def("List", TArr(TInt("int64", Ge(0), NoB))),
     Def("x.Coll", TMap(TStr(-1, -1))), Def("x.List", TArr(TInt("int64", NoB, NoB)))>>, TRUE),
   \* a tree: recursion through an array and through an optional reference
